@@ -133,11 +133,8 @@ def isStrInteger (string : List Char) : Bool :=
     match radix? with
     | none => false
     | some radix =>
-      -- `chars.next_if(|ch| matches!(ch, '-' | '+'))`
-      let rest := match rest with
-        | '-' :: r => r
-        | '+' :: r => r
-        | r => r
+      -- `chars.next_if(|ch| matches!(ch, '-' | '+'))`: skip one sign character
+      let rest := (takeSign rest).2
       if rest.isEmpty then false else rest.all (fun ch => (radix.parseDigit ch).isSome)
 
 /-- `NaiveType::is_str_register` -/
